@@ -320,7 +320,7 @@ def variant_of(rng, spec, gen):
         src[1] += 16 * int(rng.integers(0, 3))
         s["src"] = tuple(src)
         return s
-    k = rng.integers(0, 9)
+    k = rng.integers(0, 14)
     if k == 0:
         s["ofm"].addresses[0] = (int(rng.choice(gen.pool[s["ofm"].region])) // 16) * 16
     elif k == 1 and s["ofm"].zp is not None:
@@ -338,7 +338,22 @@ def variant_of(rng, spec, gen):
         s["rounding"] = str(rng.choice(["TFL", "NATURAL"]))
     elif k == 6 and s["ifm"].scale is not None:
         s["ifm"].scale = float(np.float32(s["ifm"].scale * 1.5))
-    # k >= 7: exact repeat (A, A)
+    elif k == 7 and s["ofm"].scale is not None:
+        # only the shift of the derived multiplier changes (same 32-bit payload, other parameter half of the command word)
+        s["ofm"].scale = float(s["ofm"].scale) * float(2.0 ** int(rng.choice([-2, -1, 1, 2])))
+    elif k == 8 and s["ifm"].scale is not None:
+        s["ifm"].scale = float(s["ifm"].scale) * float(2.0 ** int(rng.choice([-1, 1])))
+        if s.get("ifm2") is not None and s["ifm2"].scale is not None and rng.integers(0, 2):
+            s["ifm2"].scale = float(s["ifm2"].scale) * 2.0
+    elif k in (9, 10, 11) and "u65" in gen.acc:
+        # addresses that differ only above bit 31 (40-bit address space): the low payload word repeats
+        which = s["ofm"] if k == 9 else s["ifm"] if k == 10 else None
+        if which is not None:
+            which.addresses = [a ^ (1 << 32) for a in which.addresses]
+        elif s.get("weights"):
+            s["weights"] = [(rg, a ^ (1 << 32), ln) for rg, a, ln in s["weights"]]
+            s["biases"] = [(rg, a ^ (1 << 33), ln) for rg, a, ln in s["biases"]]
+    # otherwise: exact repeat (A, A)
     return s
 
 
